@@ -1591,6 +1591,11 @@ def m_clone(eng, st, fr, fn, args, t):
 
 
 def m_eq(eng, st, fr, fn, args, t):
+    # a hand-written `PartialEq` impl in the analysed crates is not structural equality: leave it to inlining (a derived
+    # impl comes from a macro expansion and is structural by construction)
+    rb = eng.facts.bodies.get(fn.get("resolved", {}).get("id"))
+    if rb is not None and rb.get("impl_exp") is False and rb.get("impl_trait", "").startswith("core::cmp::PartialEq"):
+        return None
     a = _pointee(eng, st, args[0])
     b = _pointee(eng, st, args[1])
     # comparisons through references compare the referents (`<&A as PartialEq<&B>>::eq`)
